@@ -674,8 +674,8 @@ def contracts(reg):
             out.append(FnContract(
                 target=f"{c12_sevenzip.SZ}::{q}",
                 params=[(n, mk.get(n, p_unk())) for n in params],
-                ensures=[("decoder-stops-at-the-declared-size", c12_sevenzip.bounded_by_declared)],
-                raises=[Raises("Exception", sub=True)],
+                ensures=[("decoder-stops-at-the-declared-size", (lambda sp: lambda c: c12_sevenzip.bounded_by_declared(c, sp))(mk.get("__sizes__")))],
+                raises=[Raises("Exception", sub=True)], modifies=((mk["__sizes__"],) if mk.get("__sizes__") else ()),
                 note="every call of a library decompressor is given the folder's declared output size (LZMA-alone size field or max_length)",
             ))
             EXECUTOR_KW[f"{c12_sevenzip.SZ}::{q}"] = {"abstract": False, "inline_calls": False, "inline_local": True}
